@@ -46,8 +46,12 @@ func TestCheck(t *testing.T) {
 		"6 networks + prater alias + custom testnet, deposit-amount sets with/without compounding, single vs per-validator addresses, gas limit, consensus protocol, " +
 		"definition version v1.0..v1.11 in definition-file mode) comes from the case PRNG; every artifact is cross-checked and combine.Combine is run on every " +
 		"threshold-size subset of node directories (n<=6, sampled above). W2 (second block): one shard (1/4 of the alterations) of one document (lock or definition) of " +
-		"one valid, fully signed base per format version x variant (cluster.NewForT + deposit data added and lock re-signed by the harness); every JSON node gets every " +
-		"representative alteration (nibble flips, byte/char append/prepend/drop, +-1, zero, clear, toggle, delete member, swap/delete/duplicate/empty array elements, swap to every other supported version string). " +
+		"one valid, fully signed base per format version x variant (cluster.NewForT + deposit data added and lock re-signed by the harness; from v1.3 on operators/creator may be " +
+		"ERC-1271 contract accounts verified through a harness Safe model as eth1 client: single-entry before v1.11, and in every v1.11 base a Safe with 3-5 entries of which 2 are checked, " +
+		"a fully checked 2-entry Safe, an EOA, further operators with up to 32 entries and a 2-4 entry creator); every JSON node gets every " +
+		"representative alteration (nibble flips, byte/char append/prepend/drop, +-1, zero, clear, toggle, delete member, swap/delete/duplicate/empty array elements, swap to every other supported version string; long byte strings additionally get flips at the first/last byte of every 32-byte chunk, " +
+		"at first/second/r-s-boundary/v byte of every 65-byte entry, at content-derived positions, and whole-entry swap/drop/duplicate/zero). Besides the accept/reject oracle, " +
+		"same-length and whole-entry alterations of hashed members must change at least one recomputed hash (SetDefinitionHashes/SetLockHash). " +
 		"W3 (last block): decode→encode→decode (compact, indented, compact again) of the golden files, the generated files, the create-cluster locks of W1 and hand-assembled valid files " +
 		"with unusual spellings of free-text members and address letter case, per version. " +
 		"non-trivial: W1 = the CLI ran and all checks were evaluated, W2 = the base verified and alterations were judged, W3 = files verified before re-encoding; " +
@@ -56,6 +60,7 @@ func TestCheck(t *testing.T) {
 	r.Assume("SSZ hash-tree-root / compute_domain / signing-root as in the consensus and builder specs (hand-rolled sha256 merkleisation in the harness)")
 	r.Assume("tbls.Verify, tbls.SecretToPublicKey (C08) and the keystorev4 library decrypt correctly")
 	r.Assume("an alteration is value-changing iff the decoded cluster.Lock/Definition differs field-by-field (nil and empty slices identified)")
+	r.Assume("the harness Safe model (first `threshold` 65-byte entries must be by distinct owners, further entries ignored) stands in for an on-chain ERC-1271 contract")
 	r.Assume("a panic inside decode/VerifyHashes/VerifySignatures counts as 'not accepted' for C12; it is reported under extra.tamper_panics, not as a violation")
 	r.RacePkgs(false, "cluster", "cmd")
 
@@ -73,6 +78,8 @@ func TestCheck(t *testing.T) {
 	r.Require("combined_keys_checked", int64(nCLI*3))
 	r.Require("tamper_valid_bases", int64(variants*nVer*2))
 	r.Require("tamper_judged", int64(variants*nVer*300))
+	r.Require("tamper_multisig_accounts", int64(variants*2*3)) // every v1.11 base: >= 2 multi-entry operators + creator, lock and definition
+	r.Require("hash_sensitivity_checked", int64(variants*nVer*100))
 	r.Require("roundtrips", int64(nRound*30))
 
 	r.Cases(nCLI+nTamper+nRound, 0, func(c *kit.Case) {
